@@ -19,6 +19,9 @@ CONSTANTS
   EmitDyn = FALSE
   MaxHist = 0
   MaxReorders = 0
+  NameOrder <- TimesT
+  BuildCfgs <- TimesT
+  IntegrCfgs <- TimesT
   UnitCfgs <- TimesT
   Times <- TimesT
   Tol = 0
